@@ -1,4 +1,6 @@
-(* C14 -- registry references behave exactly like the inlined definition.  PARTIAL.  On the validation model:
+(* C14 -- registry references behave exactly like the inlined definition.  PARTIAL (one schema level, exact).  On the model:
+   C14_fields_by_name_process_alike: giving any of the fields' rules sets by name leaves validate / normalized unchanged;
+   per use site, moreover:
    two contexts that differ only in how the fields' rules sets are given (inline, or by names resolving to the same
    rules sets) file the same errors with the same constraints, evaluate `excludes` alike, let *of definitions inherit
    the same type / allow_unknown, and compute the same required set -- the use sites that consumed the reference
@@ -6,7 +8,7 @@
    nesting depth, normalization, acceptance) and the termination on self-referential definitions are decided by the
    inline-vs-reference oracle on the real code; known findings are listed there. *)
 From Coq Require Import List ZArith String Bool.
-From Cerb Require Import Values PyOps Errors Tree Facts Pool Validate RefProofs Current.
+From Cerb Require Import Values PyOps Errors Tree Facts Pool Validate Normalize RefProofs RefLevel NormLevel Current.
 Import ListNotations.
 
 Theorem C14_errors_see_resolved_rules : forall x x', same_resolved x x' ->
@@ -22,6 +24,48 @@ Print Assumptions C14_excludes_sees_resolved_rules.
 Theorem C14_of_rules_inherit_from_resolved_rules : forall x x', same_resolved x x' ->
   forall field def, inherit_rules current x' field def = inherit_rules current x field def.
 Proof. intros x x' E. exact (inherit_rules_same current x x' E). Qed.
+
+(* One whole schema level, every rule, every child validator, every fuel: giving any of the fields' rules sets by the
+   name of a registry entry that holds it changes nothing in what validate(normalize=False) records -- errors with
+   their paths, constraints and children, the exception if one escapes, fuel exhaustion.  (Deeper positions are the
+   schemas of the child validators, to which the theorem applies again; references INSIDE constraints show in the
+   `constraint` attribute of errors and are decided by the inline-vs-reference oracle.) *)
+Theorem C14_fields_by_name_validate_alike : forall fuel cfg doc dp sp u s s',
+  Forall2 (fun kv' kv => fst kv' = fst kv /\ by_name cfg (snd kv') (snd kv)) s' s ->
+  validate_ctx current fuel {| x_cfg := cfg; x_schema := s'; x_doc := doc; x_dp := dp; x_sp := sp; x_update := u |} =
+  validate_ctx current fuel {| x_cfg := cfg; x_schema := s; x_doc := doc; x_dp := dp; x_sp := sp; x_update := u |}.
+Proof. intros. apply validate_ctx_same_rules. apply by_name_same_rules. assumption. Qed.
+Print Assumptions C14_fields_by_name_validate_alike.
+
+(* ... and the same for the whole API of a fresh validator: validate(document, update, normalize) -- normalization,
+   then validation of the normalized document with the normalization errors already on record -- and
+   normalized(document): verdict, processed document and errors coincide. *)
+Theorem C14_fields_by_name_process_alike : forall fuel cfg doc u nz s s',
+  Forall2 (fun kv' kv => fst kv' = fst kv /\ by_name cfg (snd kv') (snd kv)) s' s ->
+  api_validate current fuel cfg s' doc u nz = api_validate current fuel cfg s doc u nz /\
+  api_normalized current fuel cfg s' doc = api_normalized current fuel cfg s doc.
+Proof. intros. apply api_same_rules. apply by_name_same_rules. assumption. Qed.
+Print Assumptions C14_fields_by_name_process_alike.
+
+(* non-vacuity of the hypothesis and of the conclusion: a schema with one field by name, a default, a coercer and a failing rule *)
+Example C14_process_example :
+  let cfg := {| c_allow_unknown := VBool false; c_require_all := false; c_ignore_none := false; c_purge_unknown := false;
+                c_purge_readonly := false; c_is_child := false; c_is_normalized := false; c_root_doc := VNone;
+                c_rules_reg := [("R"%string, VDict [(KStr "type", VStr "integer"); (KStr "coerce", VStr "to_int"); (KStr "min", VInt 5)])];
+                c_schema_reg := [] |} in
+  let inline := [(KStr "a", VDict [(KStr "type", VStr "integer"); (KStr "coerce", VStr "to_int"); (KStr "min", VInt 5)]);
+                 (KStr "b", VDict [(KStr "default", VInt 1)])] in
+  let named := [(KStr "a", VStr "R"); (KStr "b", VDict [(KStr "default", VInt 1)])] in
+  Forall2 (fun kv' kv => fst kv' = fst kv /\ by_name cfg (snd kv') (snd kv)) named inline /\
+  match api_validate current 6 cfg named [(KStr "a", VStr "3")] false true with
+  | Ok o => out_verdict o = false /\ out_doc o = [(KStr "a", VInt 3); (KStr "b", VInt 1)]
+  | _ => False
+  end.
+Proof.
+  split.
+  - constructor; [split; [reflexivity|apply bn_ref; reflexivity]|]. constructor; [split; [reflexivity|apply bn_same]|constructor].
+  - vm_compute. split; reflexivity.
+Qed.
 
 (* non-vacuity: a field given by reference and inline: same outcome, constraint found through the registry *)
 Example C14_example :
